@@ -80,7 +80,32 @@ def case_st(draw):
     return {"stream": s["stream"], "labels": s["labels"], "fault": fault,
             "chunk": draw(st.sampled_from([0, 0, 1, 7, 100])),
             "down_disconnect": draw(st.sampled_from([False] * 9 + [True])),
+            "via": draw(st.sampled_from(["object", "toml-int", "toml-float"])),
             "tls_chunk": draw(st.sampled_from([0, 0, 5, 50]))}
+
+
+def _router_from_toml(via):
+    """[[locations]] handler = "proxy" with timeout written as an integer or a float, loaded like `nauyaca serve --config`."""
+    import os
+    import shutil
+    from pathlib import Path
+
+    import tomli_w
+
+    from nauyaca.server.config import ServerConfig
+    from vlib import scratch
+
+    d = scratch.subdir("c18-toml")
+    try:
+        doc = {"server": {"host": "127.0.0.1", "port": 1965, "document_root": d},
+               "locations": [{"prefix": "/", "handler": "proxy", "upstream": "gemini://up.example",
+                              "timeout": int(TIMEOUT) if via == "toml-int" else float(TIMEOUT)}]}
+        p = os.path.join(d, "c.toml")
+        with open(p, "wb") as f:
+            tomli_w.dump(doc, f)
+        return ServerConfig.from_toml(Path(p)).get_location_router()
+    finally:
+        shutil.rmtree(d, ignore_errors=True)
 
 
 def run_case(case: dict):
@@ -129,9 +154,12 @@ def run_case(case: dict):
                                  cipher_chunk=case["tls_chunk"])
         if fault != "refuse":
             net.add("up.example", 1965, up)
-        handler = ProxyHandler(upstream="gemini://up.example", prefix="/", strip_prefix=False, timeout=TIMEOUT)
+        if case.get("via", "object") == "object":
+            route = ProxyHandler(upstream="gemini://up.example", prefix="/", strip_prefix=False, timeout=TIMEOUT).handle
+        else:
+            route = _router_from_toml(case["via"]).route
         tr = FakeTransport(loop)
-        proto = GeminiServerProtocol(handler.handle, None)
+        proto = GeminiServerProtocol(route, None)
         tr.attach(proto)
         t0 = loop.time()
         tr.feed(b"gemini://front.example/page?q=1\r\n")
